@@ -174,9 +174,11 @@ class H5Group:
 
     def get_by_id_or_name(self, id_or_name):
         if util.is_uuid(id_or_name):
-            return self.get_by_id(id_or_name)
-        else:
-            return self.get_by_name(id_or_name)
+            try:
+                return self.get_by_id(id_or_name)
+            except KeyError:
+                pass  # not an id here: a name may look like one
+        return self.get_by_name(id_or_name)
 
     def get_by_name(self, name):
         if self.group and name in self.group:
